@@ -90,13 +90,13 @@ def _serialize_element(
         schema["required"] = remove_duplicates(
             list(schema.get("required", []))
             + [
-                prop.source or name
+                name if prop.source is None else prop.source
                 for name, prop in schema["properties"].items()
                 if prop.required
             ]
         )
         schema["properties"] = {
-            prop.source or name: prop
+            (name if prop.source is None else prop.source): prop
             for name, prop in schema["properties"].items()
         }
     if not schema.get("required", True):
